@@ -300,6 +300,53 @@ pub fn run(ctx: &mut Ctx) {
             }
         }
     }
+    // rendering from a thread-local destructor at thread exit (a per-thread report buffer flushed when the
+    // thread ends): registered before and after the thread's first render
+    if ctx.shard < 6 {
+        use narsese::enum_narsese::Term;
+        use std::sync::mpsc;
+        thread_local! {
+            static FLUSH: std::cell::RefCell<Option<RenderAtExit>> = const { std::cell::RefCell::new(None) };
+        }
+        struct RenderAtExit(mpsc::Sender<Result<String, String>>);
+        impl Drop for RenderAtExit {
+            fn drop(&mut self) {
+                let t = Term::new_inheritance(Term::new_word("a"), Term::new_set_extension(vec![Term::new_word("b")]));
+                let r = std::panic::catch_unwind(|| FormatterTypst.format(&t));
+                let _ = self.0.send(r.map_err(|_| "rendering panicked inside a thread-local destructor at thread exit".to_string()));
+            }
+        }
+        for register_first in [true, false] {
+            ctx.report.eval();
+            ctx.report.bump("family.render-at-thread-exit");
+            let (tx, rx) = mpsc::channel();
+            crate::guard::install_panic_hook();
+            let h = std::thread::spawn(move || {
+                let t = Term::new_word("w");
+                if register_first {
+                    FLUSH.with(|f| *f.borrow_mut() = Some(RenderAtExit(tx.clone())));
+                    let _ = FormatterTypst.format(&t);
+                } else {
+                    let _ = FormatterTypst.format(&t);
+                    FLUSH.with(|f| *f.borrow_mut() = Some(RenderAtExit(tx.clone())));
+                }
+            });
+            let _ = h.join();
+            match rx.recv_timeout(std::time::Duration::from_secs(20)) {
+                Ok(Ok(text)) => {
+                    if let Some(w) = whitespace_defect(&text) {
+                        ctx.report.violate("C16|at-exit|whitespace".into(), w, J::obj().set("at_exit", register_first));
+                    }
+                }
+                Ok(Err(w)) => ctx.report.violate(
+                    format!("C16|at-exit|{}", register_first),
+                    format!("{} (destructor registered {} the thread's first render)", w, if register_first { "before" } else { "after" }),
+                    J::obj().set("at_exit", register_first),
+                ),
+                Err(_) => ctx.report.inconclusive.push("the thread-exit render did not report back".into()),
+            }
+        }
+    }
     // extreme sizes: rendered on a thread with a large stack (totality and whitespace; the rendering of
     // a term nested 300 deep is not kept in the injectivity monitor)
     {
@@ -433,6 +480,10 @@ pub fn run(ctx: &mut Ctx) {
 }
 
 pub fn replay(ctx: &mut Ctx, d: &J) -> Option<()> {
+    if d.get("at_exit").is_some() {
+        // (re-run as a whole by the check itself)
+        return Some(());
+    }
     if let Some(label) = jstr(d, "extreme") {
         let nd = wrap_rotating(extreme_from_label(&label)?, d.get("wrap")?.as_i128()? as usize);
         let r = on_big_stack(move || Item::N(nd).render());
